@@ -1663,10 +1663,6 @@ where
                 let mut first = true;
                 let mut stack_idx = self.open_elems.borrow().len() - 1;
                 loop {
-                    if stack_idx == 0 {
-                        return ProcessResult::Done;
-                    }
-
                     let html;
                     let eq;
                     {
@@ -1678,6 +1674,10 @@ where
                     if !first && html {
                         let mode = self.mode.get();
                         return self.step(mode, Token::Tag(tag));
+                    }
+
+                    if stack_idx == 0 {
+                        return ProcessResult::Done;
                     }
 
                     if eq {
